@@ -105,3 +105,28 @@ Definition check_engine (c : xcase) : nat :=
 
 Definition bad_cases {A} (check : A -> nat) (cases : list A) : list (nat * nat) :=
   filter (fun ic => negb (Nat.eqb (snd ic) 0)) (combine (seq 0 (List.length cases)) (map check cases)).
+
+(* ---------- histories over several compiled graphs sharing caches (C04, C08, C11) ---------- *)
+Inductive hop := HCall (gi : nat) (c : xcall) | HClear (cs : list nat).
+Record hgraph := { hg : graph; hout : nat; hcounts : list (nat * nat) }.
+Record hcase := { hgraphs : list hgraph; hcaches : list (nat * ckind); hops : list hop }.
+
+Definition hg0 : hgraph := {| hg := []; hout := 0; hcounts := [] |}.
+
+(* 0 = agreement; otherwise 10*k + what for operation k (from 1): 1 result, 2 call log, 3 trace; 4 = counts of a graph *)
+Fixpoint check_hops (gs : list hgraph) (σ : cstore) (k : nat) (ops : list hop) : nat :=
+  match ops with
+  | [] => 0
+  | HClear cs :: rest => check_hops gs (fold_left cclear cs σ) (S k) rest
+  | HCall gi c :: rest =>
+      let G := nth gi gs hg0 in
+      let (o, tr) := run_call (hg G) σ (xc_ins c) (hout G) (xc_bad c) in
+      if negb (xres_eqb (xres_of o) (xc_res c)) then 10 * k + 1
+      else if negb (list_eqb call_eqb (log_of o) (xc_log c)) then 10 * k + 2
+      else if negb (list_eqb tev_eqb tr (xc_trace c)) then 10 * k + 3
+      else check_hops gs (sto_of o) (S k) rest
+  end.
+
+Definition check_history (c : hcase) : nat :=
+  if negb (forallb (fun G => cnt_eqb (count_entries (shape (hg G)) (leaves_of (hg G)) (hout G) 2) (hcounts G)) (hgraphs c)) then 4
+  else check_hops (hgraphs c) (map (fun ck => (fst ck, new_cache (snd ck))) (hcaches c)) 1 (hops c).
